@@ -6,6 +6,30 @@ REPO = os.environ.get("VERIF_REPO", "/repo")
 BUILD = os.path.join(VERIF, "build")
 EVID = os.path.join(VERIF, "evidence")
 REPLAYS = os.path.join(VERIF, "replays")
+# Developer convenience (the registered commands never set it): VERIF_REPO=<scratch worktree> runs the same checks
+# against another checkout, with every build product, evidence file and replay under build/alt/<tag>/ so that the
+# committed evidence and the builds against /repo are left alone.
+ALT = os.path.realpath(REPO) != "/repo"
+if ALT:
+    BUILD = os.path.join(VERIF, "build", "alt", os.path.realpath(REPO).strip("/").replace("/", "_"))
+    EVID = os.path.join(BUILD, "evidence")
+    REPLAYS = os.path.join(BUILD, "replays")
+    os.makedirs(EVID, exist_ok=True)
+    os.environ["VERIF_BUILD"] = BUILD
+
+
+def crate_dir(name):
+    """source directory of one of /verif's own crates (kani, extract) whose Cargo.toml depends on the tree under test"""
+    src = os.path.join(VERIF, name)
+    if not ALT:
+        return src
+    import shutil
+    dst = os.path.join(BUILD, "crates", name)
+    shutil.rmtree(dst, ignore_errors=True)
+    shutil.copytree(src, dst, ignore=shutil.ignore_patterns("target", "Cargo.lock"))
+    t = open(os.path.join(dst, "Cargo.toml")).read().replace('path = "/repo"', f'path = "{os.path.realpath(REPO)}"')
+    open(os.path.join(dst, "Cargo.toml"), "w").write(t)
+    return dst
 CFG = "--cfg nlnetlabs_roto_verif"
 NCPU = int(os.environ.get("VERIF_JOBS", "14"))
 
